@@ -1,0 +1,121 @@
+//! Verification-only instrumentation, compiled only with the `verif-hooks`
+//! cargo feature.
+//!
+//! The analysis iterates a number of `HashMap`s and `HashSet`s whose order is
+//! decided by the per-process `RandomState`. This module lets a test harness
+//! own that order: at each such iteration point the freshly collected vector
+//! is passed through [`permute_by`], which re-orders it according to a
+//! thread-local [`OrderSpec`]. With the default spec ([`OrderSpec::Identity`])
+//! nothing is changed, so enabling the feature alone has no behavioural
+//! effect.
+
+use std::{
+    cell::{Cell, RefCell},
+    collections::BTreeMap,
+};
+
+/// The order in which to present hash-ordered collections.
+#[derive(Copy, Clone, Debug, Eq, PartialEq)]
+pub enum OrderSpec {
+    /// Leave the natural (hash) order alone.
+    Identity,
+    /// Reverse the natural order.
+    Reverse,
+    /// Sort by the site-provided key.
+    Sorted,
+    /// Sort by the site-provided key and then apply a seeded Fisher-Yates
+    /// shuffle keyed by `(seed, site, call index at that site)`.
+    Shuffle(u64),
+}
+
+/// Per-site statistics gathered while the feature is compiled in.
+#[derive(Copy, Clone, Debug, Default, Eq, PartialEq)]
+pub struct SiteStats {
+    /// The number of times the site was reached.
+    pub calls:   u64,
+    /// The longest collection seen at the site.
+    pub max_len: usize,
+    /// The number of times a collection with at least three elements was seen.
+    pub len_ge3: u64,
+}
+
+thread_local! {
+    static SPEC: Cell<OrderSpec> = const { Cell::new(OrderSpec::Identity) };
+    static STATS: RefCell<BTreeMap<&'static str, SiteStats>> = const { RefCell::new(BTreeMap::new()) };
+}
+
+/// Sets the order specification for the current thread.
+pub fn set_order(spec: OrderSpec) {
+    SPEC.with(|s| s.set(spec));
+}
+
+/// Gets the order specification for the current thread.
+#[must_use]
+pub fn order() -> OrderSpec {
+    SPEC.with(Cell::get)
+}
+
+/// Checks whether a non-identity order is currently requested.
+#[must_use]
+pub fn active() -> bool {
+    order() != OrderSpec::Identity
+}
+
+/// Clears the statistics for the current thread.
+pub fn reset_stats() {
+    STATS.with(|s| s.borrow_mut().clear());
+}
+
+/// Gets a copy of the statistics for the current thread.
+#[must_use]
+pub fn stats() -> BTreeMap<&'static str, SiteStats> {
+    STATS.with(|s| s.borrow().clone())
+}
+
+fn splitmix64(state: &mut u64) -> u64 {
+    *state = state.wrapping_add(0x9e37_79b9_7f4a_7c15);
+    let mut z = *state;
+    z = (z ^ (z >> 30)).wrapping_mul(0xbf58_476d_1ce4_e5b9);
+    z = (z ^ (z >> 27)).wrapping_mul(0x94d0_49bb_1331_11eb);
+    z ^ (z >> 31)
+}
+
+fn site_hash(site: &str) -> u64 {
+    // FNV-1a, so that the result does not depend on `RandomState`.
+    let mut h: u64 = 0xcbf2_9ce4_8422_2325;
+    for b in site.bytes() {
+        h ^= u64::from(b);
+        h = h.wrapping_mul(0x0000_0100_0000_01b3);
+    }
+    h
+}
+
+/// Re-orders `items` according to the current thread's [`OrderSpec`], using
+/// `key` to establish a hash-independent base order where one is needed.
+pub fn permute_by<T, K: Ord>(site: &'static str, items: &mut [T], key: impl FnMut(&T) -> K) {
+    let call_index = STATS.with(|s| {
+        let mut s = s.borrow_mut();
+        let entry = s.entry(site).or_default();
+        entry.calls += 1;
+        entry.max_len = entry.max_len.max(items.len());
+        if items.len() >= 3 {
+            entry.len_ge3 += 1;
+        }
+        entry.calls
+    });
+
+    match order() {
+        OrderSpec::Identity => {}
+        OrderSpec::Reverse => items.reverse(),
+        OrderSpec::Sorted => items.sort_by_cached_key(key),
+        OrderSpec::Shuffle(seed) => {
+            items.sort_by_cached_key(key);
+            let mut state = seed ^ site_hash(site) ^ call_index.wrapping_mul(0xd6e8_feb8_6659_fd93);
+            for i in (1..items.len()).rev() {
+                #[allow(clippy::cast_possible_truncation)]
+                let j = (splitmix64(&mut state) % (i as u64 + 1)) as usize;
+                items.swap(i, j);
+            }
+        }
+    }
+}
